@@ -35,7 +35,7 @@ open PyGql
 """
 
 
-def _file(origin, parts, note=None):
+def _file(origin, parts, note=None, head=None):
     """parts: list of (lean text, python source, constructs)"""
     lines = [py2lean.header(origin).rstrip("\n")]
     cons = sorted({c for _, _, cs in parts for c in cs})
@@ -45,7 +45,7 @@ def _file(origin, parts, note=None):
     lines.append("   the string being the class of the exception raised. See lean/PyGqlModel/PyPrelude.lean. -/")
     if note:
         lines.append(note)
-    lines.append(HEAD)
+    lines.append(head or HEAD)
     for text, src, _ in parts:
         lines.append("/-\n" + src.replace("-/", "- /") + "\n-/")
         lines.append(text)
@@ -99,12 +99,28 @@ def tr_collect(ctx):
             _file("src/py_gql/utilities/collect_fields.py (_skip_selection, _fragment_type_applies)", [skip, applies], note)}
 
 
+# ---- validation/rules/overlapping_fields_can_be_merged.py: _types_conflict (C05, C06) -----------------------
+
+def tr_overlap(ctx):
+    src = SRC("validation/rules/overlapping_fields_can_be_merged.py")
+    step, pysrc = py2lean.translate_step(
+        src, "_types_conflict", "_types_conflict_step", {"_types_conflict": "rec_types_conflict"},
+        isinstance_extra={"GraphQLLeafType": "isLeafType"}, extra_params="(isLeafType : Ty → Bool)")
+    cons = ["isinstance(t, WrappingType) -> t.isWrapping; isinstance(t, GraphQLLeafType) -> the parameter isLeafType",
+            "type(a) != type(b) -> !Ty.sameCtor a b; t.type -> t.inner; a != b on types -> by-name inequality of type expressions",
+            "self-recursion -> the parameter rec_types_conflict (step functional; the equation below closes the knot)"]
+    return {"PyGqlModel/Generated/TrOverlap.lean":
+            _file("src/py_gql/validation/rules/overlapping_fields_can_be_merged.py (_types_conflict)", [(step, pysrc, cons)],
+                  head=HEAD.replace("import PyGqlModel.PyPrelude", "import PyGqlModel.Ty"))}
+
+
 EXTRA = {
     "C01": tr_index_to_loc,
     "C10": tr_index_to_loc,
     "C04": tr_collect,
     "C05": tr_collect,
     "C19": tr_collect,
+    "C06": tr_overlap,
 }
 
 GENERATED = {
@@ -113,4 +129,5 @@ GENERATED = {
     "C04": ["PyGqlModel/Generated/TrCollect.lean"],
     "C05": ["PyGqlModel/Generated/TrCollect.lean"],
     "C19": ["PyGqlModel/Generated/TrCollect.lean"],
+    "C06": ["PyGqlModel/Generated/TrOverlap.lean"],
 }
